@@ -55,7 +55,30 @@ func (fv *FuncVerifier) packVariadic(call *ast.CallExpr, sig *types.Signature, a
 	}
 	st := fv.sortOf(sig.Params().At(np - 1).Type())
 	tail := fv.w.SeqLit(st, args[np-1:])
+	if fv.curState != nil && len(args[np-1:]) > 0 {
+		tail = fv.namedSeqLit(fv.curState, st, args[np-1:])
+	}
 	return append(append([]Term(nil), args[:np-1]...), tail)
+}
+
+// namedSeqLit introduces a constant for a literal sequence together with its length and elements (ground index
+// terms help the solver instantiate quantified facts about the sequence).
+func (fv *FuncVerifier) namedSeqLit(st *State, seq Sort, elems []Term) Term {
+	if st.heapParams != nil {
+		return fv.w.SeqLit(seq, elems)
+	}
+	for _, e := range elems {
+		if strings.Contains(e.S, "$") {
+			return fv.w.SeqLit(seq, elems)
+		}
+	}
+	c := fv.fresh("lit", seq)
+	st.Assume(App(SBool, "=", c, fv.w.SeqLit(seq, elems)))
+	st.Assume(App(SBool, "=", fv.w.SeqLen(c), IntLit(int64(len(elems)))))
+	for i, e := range elems {
+		st.Assume(App(SBool, "=", fv.w.SeqAt(c, IntLit(int64(i))), e))
+	}
+	return c
 }
 
 func (fv *FuncVerifier) evalCall(st *State, env *Env, call *ast.CallExpr) []Term {
@@ -182,7 +205,12 @@ func (fv *FuncVerifier) evalCall(st *State, env *Env, call *ast.CallExpr) []Term
 	if !env.spec {
 		fv.nondet = append(fv.nondet, "call of unknown function value "+exprString(fun))
 		fv.note("call of unknown function value %s at %s: heap havocked", exprString(fun), fv.pos(call.Pos()))
-		fv.havocAll(st)
+		if fv.fn.Contr != nil && fv.fn.Contr.Has("fnvalue-calllog", 0) {
+			pfx, exc := preservesOf(fv.fn.Contr)
+			fv.havocAllExcept(st, pfx, exc)
+		} else {
+			fv.havocAll(st)
+		}
 	}
 	var res []Term
 	if sig != nil {
@@ -192,8 +220,45 @@ func (fv *FuncVerifier) evalCall(st *State, env *Env, call *ast.CallExpr) []Term
 			res = append(res, r)
 		}
 	}
+	// `fnvalue-calllog K`: calls of unknown function values in this function are user callbacks, logged with kind K
+	if !env.spec && fv.fn.Contr != nil {
+		if cls := fv.fn.Contr.Get("fnvalue-calllog", 0, 0); len(cls) > 0 {
+			kind := 0
+			fmt.Sscanf(cls[0].Text, "%d", &kind)
+			first, errT := Null, Null
+			if len(args) > 0 && args[0].Sort == SRef {
+				first = args[0]
+			}
+			if len(res) > 0 && res[len(res)-1].Sort == SRef {
+				errT = res[len(res)-1]
+			}
+			fv.appendCall(st, kind, first, fval, errT)
+		}
+	}
 	_ = w
 	return res
+}
+
+// preservesOf reads `preserves <key prefix> except k1, k2` of a contract: the heap fields a call leaves untouched
+// although its other effects are unknown.
+func preservesOf(c *Contract) (string, []string) {
+	if c == nil {
+		return "", nil
+	}
+	cls := c.Get("preserves", 0, 0)
+	if len(cls) == 0 {
+		return "", nil
+	}
+	txt := cls[0].Text
+	pfx := txt
+	var exc []string
+	if i := strings.Index(txt, " except "); i >= 0 {
+		pfx = strings.TrimSpace(txt[:i])
+		for _, e := range strings.Split(txt[i+len(" except "):], ",") {
+			exc = append(exc, strings.TrimSpace(e))
+		}
+	}
+	return strings.TrimSpace(pfx), exc
 }
 
 func isSpecName(n string) bool { return strings.HasPrefix(n, "spec_") || strings.HasPrefix(n, "Spec_") }
@@ -448,7 +513,17 @@ func (fv *FuncVerifier) specHelper(st *State, env *Env, call *ast.CallExpr, name
 			src = env.old
 		}
 		al := fv.heapGet(src, "$ghost:alloc", "(Array Ref Bool)")
-		return And(Not(App(SBool, "=", r, Null)), Not(App(SBool, "select", al, r))), true
+		cur := fv.heapGet(st, "$ghost:alloc", "(Array Ref Bool)")
+		return And(Not(App(SBool, "=", r, Null)), Not(App(SBool, "select", al, r)), App(SBool, "select", cur, r)), true
+	case "spec_mapKeys", "spec_mapVals":
+		mv := fv.eval(st, env, call.Args[0])
+		key := "$syncmap:keys"
+		if name == "spec_mapVals" {
+			key = "$syncmap:vals"
+		}
+		return fv.readField(st, mv, key, fv.w.SeqSort(SRef)), true
+	case "spec_callMark":
+		return fv.heapGet(st, "$ghost:callmark", SInt), true
 	case "spec_parsed":
 		return fv.heapGet(st, "$ghost:parsed", "Seq_Int"), true
 	case "spec_parsedName":
@@ -510,6 +585,18 @@ func (fv *FuncVerifier) specHelper(st *State, env *Env, call *ast.CallExpr, name
 			return T(SBool, "(exists ((%s Int)) %s)", bn, And(rng, body).S), true
 		}
 		return T(SBool, "(forall ((%s Int)) %s)", bn, Implies(rng, body).S), true
+	case "spec_existed":
+		// the object already existed when the function (or literal) under verification was entered
+		r := fv.eval(st, env, call.Args[0])
+		src := fv.entry
+		if env.old != nil {
+			src = env.old
+		}
+		if src == nil {
+			src = st
+		}
+		al := fv.heapGet(src, "$ghost:alloc", "(Array Ref Bool)")
+		return App(SBool, "select", al, r), true
 	case "spec_all", "spec_any":
 		lit, ok := ast.Unparen(call.Args[0]).(*ast.FuncLit)
 		if !ok || len(lit.Body.List) != 1 {
@@ -792,6 +879,39 @@ func (fv *FuncVerifier) joinInto(dst *State, states []*State) {
 		maxEpoch = fv.nfresh
 	}
 	merged.epoch = maxEpoch
+	if !sameEpoch {
+		// what do ALL havocs of ALL joined paths preserve?
+		pfx, okAll := "", true
+		var exc []string
+		first := true
+		for _, s := range states {
+			for _, h := range s.havocs {
+				if first {
+					pfx, first = h.prefix, false
+				} else if h.prefix != pfx {
+					okAll = false
+				}
+				for _, e := range h.except {
+					found := false
+					for _, e2 := range exc {
+						if e2 == e {
+							found = true
+						}
+					}
+					if !found {
+						exc = append(exc, e)
+					}
+				}
+			}
+		}
+		ev := havocEvent{epoch: maxEpoch}
+		if okAll && !first {
+			ev.prefix, ev.except = pfx, exc
+		}
+		base := states[0].baseEpoch
+		merged.havocs = []havocEvent{ev}
+		merged.baseEpoch = base
+	}
 	for k := range hkeys {
 		same := sameEpoch
 		first, ok0 := states[0].heap[k]
@@ -884,7 +1004,9 @@ func (fv *FuncVerifier) callRepoFunc(st *State, env *Env, call *ast.CallExpr, fi
 		}
 		return fv.freshResults(st, sig)
 	}
+	fv.curState = st
 	args = fv.packVariadic(call, sig, args)
+	fv.curState = nil
 	// bind parameters
 	binds := map[types.Object]Term{}
 	var paramObjs []types.Object
@@ -947,6 +1069,10 @@ func (fv *FuncVerifier) callRepoFunc(st *State, env *Env, call *ast.CallExpr, fi
 		}
 		if c.Has("effects", 0) {
 			fv.havocLogs(st)
+		}
+		// the callee may have allocated (fresh(result) in its contract refers to exactly this growth)
+		if !c.Has("heapfree", 0) {
+			fv.growAlloc(st)
 		}
 	}
 	var res []Term
@@ -1019,6 +1145,8 @@ func (fv *FuncVerifier) appendCall(st *State, kind int, gen, obj, err Term) {
 	log := fv.ghostLog(st, "calls")
 	e := fv.w.StructMk(fv.w.elemOf[log.Sort], []Term{IntLit(int64(kind)), gen, obj, err})
 	st.heap["$ghost:calls"] = fv.w.SeqCat(log, fv.w.SeqUnit(log.Sort, e))
+	// remember how many file-system effects had happened when user code last ran (ordering of the two logs)
+	st.heap["$ghost:callmark"] = fv.w.SeqLen(fv.ghostLog(st, "fx"))
 }
 
 // havocLogs forgets the ghost logs (a /repo function without contract may perform any effect).
@@ -1027,18 +1155,72 @@ func (fv *FuncVerifier) havocLogs(st *State) {
 		old := fv.ghostLog(st, k)
 		st.heap["$ghost:"+k] = fv.fresh("log_"+k, old.Sort)
 	}
+	st.heap["$ghost:callmark"] = fv.fresh("callmark", SInt)
+}
+
+// devirtualise: for an interface method call I.M(recv, args) == res, assume for every /repo type T that implements
+// I and whose method T.M carries a pure contract: dyn(recv) == *T  ==>  (ensures of T.M)[result := res].
+func (fv *FuncVerifier) devirtualise(st *State, ifn *types.Func, recv Term, args []Term, res []Term) {
+	isig, _ := ifn.Type().(*types.Signature)
+	if isig == nil || isig.Recv() == nil {
+		return
+	}
+	iface, _ := isig.Recv().Type().Underlying().(*types.Interface)
+	if iface == nil {
+		return
+	}
+	for _, fi := range fv.prog.Funcs {
+		if fi.Contr == nil || fi.Decl.Recv == nil || fi.Decl.Name.Name != ifn.Name() || !fi.Contr.Has("pure", 0) || !fi.Contr.Has("ensures", 0) {
+			continue
+		}
+		msig := fi.Obj.Type().(*types.Signature)
+		rt := msig.Recv().Type()
+		if !types.Implements(rt, iface) {
+			continue
+		}
+		if fi == fv.fn {
+			continue
+		}
+		binds := map[types.Object]Term{}
+		info := fi.Pkg.TypesInfo
+		for _, f := range fi.Decl.Recv.List {
+			for _, n := range f.Names {
+				if o := info.Defs[n]; o != nil {
+					binds[o] = recv
+				}
+			}
+		}
+		i := 0
+		for _, f := range fi.Decl.Type.Params.List {
+			for _, n := range f.Names {
+				if o := info.Defs[n]; o != nil && i < len(args) {
+					binds[o] = fv.coerce(args[i], fv.sortOf(o.Type()))
+				}
+				i++
+			}
+		}
+		names := map[string]Term{}
+		fv.bindResultNames(fi, res, names, binds)
+		var ens []Term
+		for _, cl := range fi.Contr.Get("ensures", 0, 0) {
+			ens = append(ens, fv.evalClauseFor(fi, st, cl, binds, names, st, binds))
+		}
+		isT := App(SBool, "=", App(SInt, "dyn", recv), fv.w.Tag(types.TypeString(rt, nil)))
+		st.Assume(Implies(isT, And(ens...)))
+		fv.calleesUsed[fi.Key+" (devirtualised: interface call on a "+types.TypeString(rt, nil)+" returns what this proved contract says)"] = true
+	}
 }
 
 // heapVersion identifies the current heap contents: it changes whenever any heap cell may have changed.
 func (fv *FuncVerifier) heapVersion(st *State) int {
 	// hash of (epoch, marks, syntactic heap terms)
-	h := st.epoch*1000003 + len(st.hmark)
+	h := st.epoch * 1000003
 	for k, v := range st.hmark {
-		h = h*31 + v + len(k)
+		h += v*31 + len(k)
 	}
 	for k, v := range st.heap {
-		if strings.HasPrefix(k, "$ghost:") {
-			continue
+		if strings.HasPrefix(k, "$ghost:") || strings.HasPrefix(v.S, "H_") {
+			continue // ghost state, or a field that was only read (its lazily named entry value)
 		}
 		x := 0
 		for i := 0; i < len(v.S); i++ {
@@ -1157,7 +1339,8 @@ func (fv *FuncVerifier) applyAssigns(st *State, env *Env, fi *FuncInfo, cl *Clau
 			continue
 		}
 		if tgt == "*" {
-			fv.havocAll(st)
+			pfx, exc := preservesOf(fi.Contr)
+			fv.havocAllExcept(st, pfx, exc)
 			fv.havocMapArgs(st, env, call)
 			continue
 		}
@@ -1282,7 +1465,8 @@ func (fv *FuncVerifier) callUnknown(st *State, env *Env, call *ast.CallExpr, fn 
 				kind := 0
 				fmt.Sscanf(cls[0].Text, "%d", &kind)
 				fv.nondet = append(fv.nondet, "user code "+ic.Key)
-				fv.havocAll(st)
+				pfx, exc := preservesOf(ic)
+				fv.havocAllExcept(st, pfx, exc)
 				res := fv.freshResults(st, sig)
 				obj := Null
 				if len(args) > 1 {
@@ -1299,6 +1483,10 @@ func (fv *FuncVerifier) callUnknown(st *State, env *Env, call *ast.CallExpr, fn 
 	}
 	switch policy {
 	case "pure":
+		defer func() {
+			// devirtualisation: if the receiver's dynamic type is a /repo type whose method has a proved pure contract,
+			// the interface call returns what that contract says (Go dispatch semantics)
+		}()
 		// deterministic observer: uninterpreted function of receiver and arguments
 		if !strings.HasPrefix(pkgPath, repoModule) {
 			fv.externUsed[full+" (assumed pure, uninterpreted)"] = true
@@ -1320,8 +1508,13 @@ func (fv *FuncVerifier) callUnknown(st *State, env *Env, call *ast.CallExpr, fn 
 			}
 			fv.w.UFun(name, sorts, rs, "")
 			r := App(rs, name, all...)
-			st.Assume(fv.typeInv(r, sig.Results().At(i).Type()))
+			if !strings.Contains(r.S, "$") {
+				st.Assume(fv.typeInv(r, sig.Results().At(i).Type()))
+			}
 			res = append(res, r)
+		}
+		if hasRecv && strings.HasPrefix(pkgPath, repoModule) && st.heapParams == nil && !strings.Contains(recv.S, "$") {
+			fv.devirtualise(st, fn, recv, args, res)
 		}
 		return res
 	case "drop":
@@ -1342,7 +1535,27 @@ func (fv *FuncVerifier) callUnknown(st *State, env *Env, call *ast.CallExpr, fn 
 		fv.nondet = append(fv.nondet, "call of unknown external "+full)
 		fv.note("call of unknown external %s at %s: heap and map arguments havocked", full, fv.pos(call.Pos()))
 		fv.externUsed[full+" (unknown: havoc)"] = true
-		fv.havocAll(st)
+		if ic := fv.prog.IfaceContracts[ifaceKey(fn)]; ic != nil && hasRecv && strings.HasPrefix(pkgPath, repoModule) {
+			pfx, exc := preservesOf(ic)
+			pre := fv.heapGet(st, "$ghost:alloc", "(Array Ref Bool)")
+			fv.havocAllExcept(st, pfx, exc)
+			if ic.Has("fresh-result", 0) {
+				// ASSUMED contract of user code: the (first) result is a non-nil object allocated by the call
+				res := fv.freshResults(st, sig)
+				if len(res) > 0 && res[0].Sort == SRef {
+					cur := fv.heapGet(st, "$ghost:alloc", "(Array Ref Bool)")
+					st.Assume(And(Not(App(SBool, "=", res[0], Null)), Not(App(SBool, "select", pre, res[0])), App(SBool, "select", cur, res[0])))
+				}
+				for _, a := range call.Args {
+					if lit, ok := ast.Unparen(a).(*ast.FuncLit); ok {
+						fv.havocWrites(st, env, lit.Body)
+					}
+				}
+				return res
+			}
+		} else {
+			fv.havocAll(st)
+		}
 		fv.havocMapArgs(st, env, call)
 		// closures passed as arguments may run: havoc what they write
 		for _, a := range call.Args {
